@@ -151,8 +151,8 @@ def shrink(ctx, c, which):
     cur = copy.deepcopy(c)
     budget = 30
     # one cut is enough
-    for cut in list(cur["cuts"]):
-        if budget <= 0 or len(cur["cuts"]) == 1:
+    for cut in cur["cuts"][-1:] + cur["cuts"][len(cur["cuts"]) // 2:-1] + cur["cuts"][:len(cur["cuts"]) // 2]:
+        if budget <= 10 or len(cur["cuts"]) == 1:
             break
         y = dict(cur, cuts=[cut])
         budget -= 1
